@@ -248,7 +248,9 @@ impl Scenario for Trg {
                 for _ in 0..n {
                     self.next_id += 1;
                     let id = if !existing.is_empty() && rng.chance(1, 10) { *rng.pick(&existing) } else { self.next_id };
-                    let v = if rng.chance(self.sw.null_pct, 100) { Lit::Null } else { Lit::Int(rng.range(0, dom)) };
+                    // (with extreme_ints: values whose neighbours are not distinguishable as f64)
+                    let big = if self.sw.extreme_ints && rng.chance(1, 2) { 1i64 << 60 } else { 0 };
+                    let v = if rng.chance(self.sw.null_pct, 100) { Lit::Null } else { Lit::Int(big + rng.range(0, dom)) };
                     let w = if rng.chance(self.sw.null_pct, 100) { Lit::Null } else { Lit::Int(rng.range(0, 3)) };
                     rows.push(vec![Lit::Int(id), v, w]);
                 }
